@@ -296,11 +296,13 @@ Proof.
     destruct (size <=? 0 + 1); [lia|]. replace (av_type a1 =? ty) with false by (symmetry; now apply Z.eqb_neq). lia.
 Qed.
 
-Theorem range_expand o args size c kk :
+Theorem range_expand_shape o args size c kk :
   Forall scalar args -> Forall inrv args -> exact (hd VN args) ->
   Z.of_nat (length args) < 2 ^ 31 ->
   convert_to_range o args size = CYes c kk ->
-  exists n, kk = Z.of_nat n /\ (5 <= n)%nat /\ expand c = Some (firstn n args).
+  exists n, kk = Z.of_nat n /\ (5 <= n)%nat /\ expand c = Some (firstn n args) /\
+    ((exists y, c = [VRep (Z.of_nat n) 0; hd VN args; VSpc y]) /\ firstn n args = repeat (hd VN args) n \/
+     (exists k d x y, c = [VRep (Z.of_nat n) 1; mk k d; mk k x; VSpc y])).
 Proof.
   intros Hsc Hin Hex Hlen Hc. unfold convert_to_range in Hc.
   destruct ((size <? 5) || (hd_type args =? 45) || negb (compress o)); [discriminate|].
@@ -333,10 +335,12 @@ Proof.
     { intros j Hj. destruct j as [|[|j]]; [assumption|assumption|lia]. }
     destruct (Z.of_nat n <? 5) eqn:E5; [discriminate|]. inversion Hc; subst c kk. clear Hc.
     exists n. split; [reflexivity|]. split; [lia|].
-    rewrite Ea. change (Z.to_nat 1) with 1%nat. cbn [firstn app]. rewrite <- Ea.
+    assert (Hrep : firstn n args = repeat a0 n).
+    { rewrite (firstn_map_seq (fun _ => a0) args n), map_const_seq; [reflexivity|].
+      intros j Hj. apply Hcr. lia. }
+    rewrite Ea. change (Z.to_nat 1) with 1%nat. cbn [firstn app hd]. rewrite <- Ea.
     rewrite expand_const by (try assumption; lia). rewrite Nat2Z.id.
-    rewrite (firstn_map_seq (fun _ => a0) args n), map_const_seq; [reflexivity|].
-    intros j Hj. apply Hcr. lia.
+    split; [now rewrite Hrep|]. left. split; [eexists; reflexivity|exact Hrep].
   - (* a run with a step *)
     cbn [negb andb] in Hc.
     destruct (range_convertible (hd_type args)) eqn:Erc; [|discriminate]. cbn [negb] in Hc.
@@ -366,6 +370,17 @@ Proof.
     { assert (Hsome : nth_error args (n - 1) <> None) by (rewrite Hcl by lia; discriminate).
       apply nth_error_Some in Hsome. lia. }
     rewrite Ea. change (Z.to_nat 1) with 1%nat. cbn [firstn app]. rewrite <- Ea.
-    rewrite expand_delta by lia. rewrite Nat2Z.id. f_equal. symmetry. apply firstn_map_seq.
-    intros j Hj. apply Hcl. lia.
+    rewrite expand_delta by lia. rewrite Nat2Z.id.
+    split; [f_equal; symmetry; apply firstn_map_seq; intros j Hj; apply Hcl; lia|].
+    right. eexists _, _, _, _. reflexivity.
+Qed.
+
+Theorem range_expand o args size c kk :
+  Forall scalar args -> Forall inrv args -> exact (hd VN args) ->
+  Z.of_nat (length args) < 2 ^ 31 ->
+  convert_to_range o args size = CYes c kk ->
+  exists n, kk = Z.of_nat n /\ (5 <= n)%nat /\ expand c = Some (firstn n args).
+Proof.
+  intros H1 H2 H3 H4 H5. destruct (range_expand_shape o args size c kk H1 H2 H3 H4 H5) as (n & A & B & C & _).
+  exists n. auto.
 Qed.
